@@ -49,6 +49,14 @@ class Program:
         for b in self.bodies.values():
             if b.kind.startswith("Closure") or b.kind.startswith("Coroutine"):
                 self._children[b.parent].append(b.id)
+        # the closures written in a helper that was analysed inlined belong to the family of the function it was inlined into
+        # (the closure aggregates are now built in that function's blocks)
+        for _ in range(3):
+            for aid, c in self.inline_report.get("inlined", ()):
+                for owner in [c] + [k for k in list(self._children.get(c, ())) if k in self.bodies and self.bodies[k].kind.startswith("Coroutine")]:
+                    for k in list(self._children.get(owner, ())):
+                        if k in self.bodies and self.bodies[k].kind.startswith("Closure") and k not in self._children[aid] and aid in self.bodies:
+                            self._children[aid].append(k)
         # trait method -> impl methods (for dyn dispatch)
         self.trait_impls = defaultdict(list)
         for im in self.impls:
